@@ -54,6 +54,7 @@ SELECT_ALPHA = [
     ("for_update", ["for_update", {}]),
     ("with", ["with", "c1", {"calls": [["from", V], ["select", [f("v", "id")]]]}]),
     ("prewhere", ["prewhere", ["cmp", "=", f("t", "a"), raw(0)]]),
+    ("prewhere", ["prewhere", ["cmp", "<>", f("t", "b"), raw(11)]]),
     ("group", ["with_totals"]),
     ("from2", ["from", U]),
     # columns given by name (bound to the statement's first FROM table whatever is called in between)
@@ -140,7 +141,7 @@ ORDER = {
     "INSERT": ["WITH", "INSERT", "REPLACE", "VALUES", "SELECT", "FROM", "JOIN", "WHERE", "GROUP", "HAVING", "ORDER", "LIMIT", "OFFSET", "FETCH", "ON", "DO",
                "WHERE2", "RETURNING"],
     "UPDATE": ["WITH", "UPDATE", "JOIN0", "SET", "FROM", "JOIN", "WHERE", "ORDER", "LIMIT", "RETURNING"],
-    "DELETE": ["DELETE", "FROM", "JOIN", "WHERE", "ORDER", "LIMIT", "RETURNING"],
+    "DELETE": ["WITH", "DELETE", "FROM", "JOIN", "WHERE", "ORDER", "LIMIT", "RETURNING"],
 }
 CLAUSE_WORDS = {"WITH", "SELECT", "INTO", "FROM", "FORCE", "USE", "JOIN", "PREWHERE", "WHERE", "GROUP", "HAVING", "ORDER", "LIMIT", "OFFSET",
                 "FETCH", "FOR", "INSERT", "REPLACE", "VALUES", "UPDATE", "SET", "DELETE", "RETURNING"}
@@ -280,6 +281,44 @@ def check_skeleton(sql, lexd, kind):
             return "empty-clause:%s" % w
         if w in ("GROUP", "ORDER") and len(body) < 2:
             return "empty-clause:%s" % w
+    return None
+
+
+# every call leaves its clause in the statement; criteria given by successive calls of one family appear in call order
+FAMILY_WORDS = {"where": ["WHERE"], "prewhere": ["PREWHERE"], "having": ["HAVING"], "group": ["GROUP"], "order": ["ORDER"], "join": ["JOIN"],
+                "distinct": ["DISTINCT"], "offset": ["OFFSET"], "limit": ["LIMIT", "FETCH", "TOP"], "top": ["TOP"], "set": ["SET"], "values": ["VALUES"],
+                "returning": ["RETURNING"], "with": ["WITH"], "force_index": ["FORCE"], "use_index": ["USE"], "for_update": ["FOR"]}
+
+
+def check_presence(sql, lexd, kind, d, calls):
+    toks = lex(sql, lexd)
+    words = {t.value for t in toks if t.kind == "WORD"}
+    fams = [f_ for f_, _ in calls]
+    for fam in set(fams):
+        need = FAMILY_WORDS.get(fam)
+        if fam == "group" and all(c[1][0] == "with_totals" for c in calls if c[0] == "group"):
+            continue
+        if need and not (set(need) & words):
+            return "clause-missing:%s" % need[0]
+    if d == "mssql" and "FETCH" in words and "OFFSET" not in words:
+        return "clause-missing:OFFSET"
+    if d in ("mssql", "oracle") and "OFFSET" in words and "ROWS" not in words:
+        return "clause-shape:OFFSET"
+    # conjuncts in call order: each criterion call carries its own numeric literal
+    for fam in ("where", "prewhere", "having"):
+        marks = []
+        for f_, c in calls:
+            if f_ == fam and kind != "insert":
+                nums = [x for x in json.dumps(c).replace("[", " ").replace("]", " ").replace(",", " ").split() if x.lstrip("-").isdigit()]
+                if nums:
+                    marks.append(int(nums[-1]))
+        if len(marks) > 1:
+            posn = []
+            for m in marks:
+                idx = [i for i, t in enumerate(toks) if t.kind == "NUM" and t.value == m]
+                posn.append(idx[0] if idx else -1)
+            if -1 not in posn and posn != sorted(posn):
+                return "conjunct-order:%s" % fam.upper()
     return None
 
 
@@ -503,7 +542,7 @@ def run_case(case):
             res.violate("C13|%s|incomplete-renders-fragment" % kind, "an incomplete builder renders %r instead of ''" % sql[:120],
                         dialect=d, calls=[alpha[i][1] for i in comb])
         return res
-    sym = check_skeleton(sql, lexd, kind)
+    sym = check_skeleton(sql, lexd, kind) or check_presence(sql, lexd, kind, d, [alpha[i] for i in comb])
     if sym:
         res.violate("C13|%s|%s|%s" % (kind, sym.split(":")[0] if sym.startswith("unlexable") else sym, d if "order" in sym or "unexpected" in sym else "any"),
                     "statement is not well-formed: %s" % sym, dialect=d, calls=[alpha[i][1] for i in comb], sql=sql)
